@@ -55,6 +55,8 @@ impl RuntimeLimits {
     }
 
     pub fn check_permission(&self, permission: &Permission) -> RuntimeResult<()> {
+        #[cfg(feature = "verif")]
+        crate::verif::perm(permission.id, self.permissions.get(permission));
         if self.permissions.get(permission) {
             Ok(())
         } else {
@@ -176,6 +178,12 @@ impl<W, R, T> Runtime<W, R, T> {
                     stats.size
                 );
             }
+            #[cfg(feature = "verif")]
+            crate::verif::alloc(
+                size.into(),
+                stats.size.into(),
+                usize::from(stats.size) <= max_size,
+            );
             if usize::from(stats.size) > max_size {
                 Err(RuntimeViolation::AllocationLimitReached)
             } else {
@@ -188,8 +196,23 @@ impl<W, R, T> Runtime<W, R, T> {
 
     pub(crate) fn deallocate(&self, size: AllocatedMemory) {
         if !size.is_zero() {
+            #[cfg(feature = "verif")]
+            crate::verif::dealloc(size.into());
             self.stats.borrow_mut().size -= size
         }
+    }
+}
+
+#[cfg(feature = "verif")]
+impl<W, R, T> Runtime<W, R, T> {
+    /// bytes currently accounted for live values (0 unless a size limit is set)
+    pub fn verif_accounted_bytes(&self) -> usize {
+        self.stats.borrow().size.into()
+    }
+
+    /// the user-call counter the call limit is compared with (0 unless a call limit is set)
+    pub fn verif_ud_calls(&self) -> usize {
+        self.stats.borrow().ud_calls
     }
 }
 
